@@ -1,5 +1,183 @@
-Require Import V.Lib.Base V.C16.Model.
+(* C16 - string <-> value conversion round-trips and rejects what does not fit.
+   Statements only; proofs are in C16/Proofs*.v.  Model: C16/Model.v (strtoll/strtoull modelled per ISO C,
+   everything else mirrors src/string_convert.cpp / potassco/string_convert.h after the repairs 9fa71a8, 57fedb9, bbf7497).
+   Types: 0 bool, 1 char, 2 int, 3 unsigned, 4 long, 5 unsigned long, 6 long long, 7 unsigned long long, 8.. enums (LP64). *)
+Require Import V.Lib.Base V.Lib.Dec V.Gen.Consts_C16.
+Require Import V.C16.Model V.C16.Spec V.C16.ProofsBasic V.C16.ProofsRT V.C16.ProofsAcc V.C16.ProofsEnum V.C16.ProofsComp.
 Local Open Scope Z_scope.
+
+(* ================= (1) round trip, ALL values of every integer type ================= *)
+(* xconvert reads back exactly v from what xconvert(std::string&, v) printed and stops right behind it - for every v of the
+   type (the largest unsigned values are printed as "umax"), for clean and stale errno (e), alone (rest = []) or followed
+   by any character that is neither letter nor digit (separator, bracket, white space). *)
+Theorem c16_roundtrip_int : forall ty v e rest,
+  2 <= ty <= 7 -> ty_min ty <= v <= ty_max ty -> nonalnum rest ->
+  exists e', parse_scalar ty e (print_scalar ty v ++ rest) = mkp true v (length (print_scalar ty v)) e'.
+Proof. exact roundtrip_int. Qed.
+Print Assumptions c16_roundtrip_int.
+
+(* string_cast(toString(v)) = v for every value of bool, the six integer types, and every char except NUL *)
+Theorem c16_roundtrip_string_cast : forall ty v e,
+  ((2 <= ty <= 7 /\ ty_min ty <= v <= ty_max ty) \/ (ty = 0 /\ (v = 0 \/ v = 1))) \/ (ty = 1 /\ 1 <= v <= 255) ->
+  cast_scalar ty e (cut0 (print_scalar ty v)) = Some v.
+Proof. exact cast_roundtrip. Qed.
+Print Assumptions c16_roundtrip_string_cast.
+
+Theorem c16_roundtrip_bool : forall v e rest, v = 0 \/ v = 1 ->
+  parse_scalar 0 e (print_scalar 0 v ++ rest) = mkp true v (length (print_scalar 0 v)) e.
+Proof. exact roundtrip_bool. Qed.
+Print Assumptions c16_roundtrip_bool.
+
+Theorem c16_roundtrip_char : forall c e rest, 0 <= c <= 255 -> nonalnum rest ->
+  parse_scalar 1 e (print_scalar 1 c ++ rest) = mkp true c 1 e.
+Proof. exact roundtrip_char. Qed.
+Print Assumptions c16_roundtrip_char.
+
+(* KNOWN FINDING char-nul-no-roundtrip: toString('\0') is the one-byte string "\0"; as a C string it is empty *)
+Theorem c16_roundtrip_char_nul_refuted : exists c, 0 <= c <= 255 /\ cast_scalar 1 false (cut0 (print_scalar 1 c)) = None.
+Proof. exists 0. split; [lia | vm_compute; reflexivity]. Qed.
+Print Assumptions c16_roundtrip_char_nul_refuted.
+
+(* what is printed for signed values is the canonical decimal numeral of v *)
+Theorem c16_print_signed_canonical : forall v, - 2 ^ 63 <= v < 2 ^ 63 ->
+  exists ds, print_signed v = (if v <? 0 then [45] else []) ++ ds /\ all_digits ds /\ ds <> [] /\ value ds = Z.abs v /\
+             (hd 0 ds = 48 -> ds = [48]).
+Proof. exact print_signed_canonical. Qed.
+Print Assumptions c16_print_signed_canonical.
+
+(* ================= (2) accepts-only ================= *)
+(* If xconvert accepts (token count != 0) then: the end position is inside the string and something was consumed, the value
+   is within the limits of the type, and the consumed text is a documented keyword for that value or a numeral (Spec.v:
+   0x/0X hexadecimal, leading-0 octal, else white space / sign / decimal digits; digit runs of ANY length, value in Z)
+   denoting exactly the returned value. *)
+Theorem c16_accepts_only : forall ty e s, 2 <= ty <= 7 -> p_ok (parse_scalar ty e s) = true ->
+  let r := parse_scalar ty e s in
+  (0 < p_len r <= length s)%nat /\ ty_min ty <= p_val r <= ty_max ty /\
+  (keyword ty (firstn (p_len r) s) (p_val r) \/ numeral (firstn (p_len r) s) (p_val r)).
+Proof. exact accepts_only. Qed.
+Print Assumptions c16_accepts_only.
+
+(* whole-string conversion succeeds iff xconvert accepts and no character is left *)
+Theorem c16_whole_string : forall ty e s v,
+  cast_scalar ty e s = Some v <->
+  (p_ok (parse_scalar ty e s) = true /\ p_val (parse_scalar ty e s) = v /\ p_len (parse_scalar ty e s) = length s).
+Proof. exact whole_string. Qed.
+Print Assumptions c16_whole_string.
+
+Theorem c16_whole_string_fails_with_rest : forall ty e s, p_ok (parse_scalar ty e s) = true ->
+  (cast_scalar ty e s = None <-> (p_len (parse_scalar ty e s) < length s)%nat \/ (length s < p_len (parse_scalar ty e s))%nat).
+Proof. exact cast_fails_with_rest. Qed.
+Print Assumptions c16_whole_string_fails_with_rest.
+
+(* ================= (3) enumerations: finite sweep over the generated classes ================= *)
+(* For every class the translator found (Head_t Body_t Value_t Heuristic_t Directive_t Theory_t Tuple_t Clause_t Statistics_t)
+   and every (key, value) that find_kv reads out of the stringified macro arguments: the value prints as its key; the key,
+   the key followed by ",x" and the decimal numeral of the value read back as the value (clean and stale errno); isValid holds. *)
+Theorem c16_enum_roundtrip : forall t k v e, In t enum_classes -> In (k, v) (ec_entries (ec_of t)) ->
+  print_enum (ec_of t) v = k /\
+  parse_enum (ec_of t) e k = mkp true v (length k) e /\
+  parse_enum (ec_of t) e (k ++ [def_sep; 120]) = mkp true v (length k) e /\
+  parse_enum (ec_of t) e (print_signed v) = mkp true v (length (print_signed v)) e /\
+  ec_valid (ec_of t) v = true.
+Proof. exact enum_roundtrip. Qed.
+Print Assumptions c16_enum_roundtrip.
+
+(* bound of the sweep: eMin - 8 <= v < eMax + 8 *)
+Theorem c16_enum_rejects_non_constants : forall t v, In t enum_classes ->
+  ec_min (ec_of t) - 8 <= v < ec_max (ec_of t) + 8 -> ec_valid (ec_of t) v = false ->
+  p_ok (parse_enum (ec_of t) false (print_signed v)) = false /\ print_enum (ec_of t) v = [].
+Proof. exact enum_rejects_neighbours. Qed.
+Print Assumptions c16_enum_rejects_non_constants.
+
+(* for EVERY string: what EnumClass::convert accepts is a key of the class or a numeral / int keyword whose value is a constant *)
+Theorem c16_enum_accepts_only : forall ec e x, p_ok (parse_enum ec e x) = true ->
+  let r := parse_enum ec e x in
+  (0 < p_len r <= length x)%nat /\
+  exists k, In (k, p_val r) (ec_entries ec) /\
+    (firstn (p_len r) x = k \/ keyword_signed int_min int_max (firstn (p_len r) x) (p_val r) \/ numeral (firstn (p_len r) x) (p_val r)).
+Proof. exact parse_enum_sound. Qed.
+Print Assumptions c16_enum_accepts_only.
+
+(* ================= (4) pairs and lists ================= *)
+(* element types: the six integer types and bool (elem_ok); char and enum elements are exercised by the correspondence run only *)
+Theorem c16_pair_roundtrip : forall ta tb a b, elem_ok ta a -> elem_ok tb b ->
+  cast_pair ta tb false (cut0 (print_pair ta tb a b)) = Some (a, b).
+Proof. exact pair_roundtrip_elems. Qed.
+Print Assumptions c16_pair_roundtrip.
+
+Theorem c16_list_roundtrip : forall ty l, l <> [] -> Forall (elem_ok ty) l ->
+  cast_list ty false (cut0 (print_list ty l)) = (true, l).
+Proof. exact list_roundtrip_elems. Qed.
+Print Assumptions c16_list_roundtrip.
+
+(* generic form: any element type whose values read back in front of a separator *)
+Theorem c16_list_roundtrip_generic : forall ty l, l <> [] -> Forall (rt_ok ty) l -> Forall (good_print ty) l ->
+  cast_list ty false (cut0 (print_list ty l)) = (true, l).
+Proof. exact list_roundtrip. Qed.
+Print Assumptions c16_list_roundtrip_generic.
+
+(* the fuel of the sequence loop is never exhausted *)
+Theorem c16_list_fuel : forall ty e x, snd (parse_list ty e x) = false.
+Proof. exact parse_list_no_fault. Qed.
+Print Assumptions c16_list_fuel.
+
+(* KNOWN FINDING empty-list-no-roundtrip *)
+Theorem c16_list_roundtrip_empty_refuted : exists ty, elem_ok ty 0 /\ fst (cast_list ty false (cut0 (print_list ty []))) = false.
+Proof. exists 2. split; [left; split; [unfold int_ty; lia | vm_compute; split; discriminate] | vm_compute; reflexivity]. Qed.
+Print Assumptions c16_list_roundtrip_empty_refuted.
+
+(* KNOWN FINDING pair-open-paren-char: pair<char,int>('(', 5) *)
+Theorem c16_pair_roundtrip_char_paren_refuted : exists a b, cast_pair 1 2 false (cut0 (print_pair 1 2 a b)) <> Some (a, b).
+Proof. exists 40, 5. vm_compute. discriminate. Qed.
+Print Assumptions c16_pair_roundtrip_char_paren_refuted.
+
+(* KNOWN FINDING list-open-bracket-char: vector<char>{'['} *)
+Theorem c16_list_roundtrip_char_bracket_refuted : exists l, l <> [] /\ cast_list 1 false (cut0 (print_list 1 l)) <> (true, l).
+Proof. exists [91]. split; [discriminate | vm_compute; discriminate]. Qed.
+Print Assumptions c16_list_roundtrip_char_bracket_refuted.
+
+(* ================= non-vacuity ================= *)
+Example nv_ranges : (ty_min 2 = -2147483648 /\ ty_max 2 = 2147483647) /\ (ty_min 3 = 0 /\ ty_max 3 = 4294967295) /\
+  (ty_min 4 = -9223372036854775808 /\ ty_max 5 = 18446744073709551615) /\ (ty_min 6 = ty_min 4 /\ ty_max 7 = ty_max 5).
+Proof. vm_compute. repeat split. Qed.
+Example nv_extremes_print :
+  print_scalar 3 4294967295 = [117; 109; 97; 120] /\ print_scalar 7 18446744073709551615 = [117; 109; 97; 120] /\
+  print_scalar 2 (-2147483648) = [45; 50; 49; 52; 55; 52; 56; 51; 54; 52; 56] /\
+  cast_scalar 6 true (print_scalar 6 9223372036854775807) = Some 9223372036854775807 /\
+  cast_scalar 6 true (print_scalar 6 (-9223372036854775808)) = Some (-9223372036854775808).
+Proof. vm_compute. repeat split. Qed.
+(* "0x7fffffff", " -12", "017", "imax", "-1" (unsigned) are accepted with the denoted value ... *)
+Example nv_accepts :
+  cast_scalar 2 false [48; 120; 55; 102; 102; 102; 102; 102; 102; 102] = Some 2147483647 /\
+  cast_scalar 2 false [32; 45; 49; 50] = Some (-12) /\ cast_scalar 3 false [48; 49; 55] = Some 15 /\
+  cast_scalar 4 false [105; 109; 97; 120] = Some 9223372036854775807 /\ cast_scalar 3 false [45; 49] = Some 4294967295.
+Proof. vm_compute. repeat split. Qed.
+(* ... "2147483648" (int), "4294967296" (unsigned), " -5" (unsigned long long), 40 nines (every type), "12x" (whole string) are not *)
+Example nv_rejects :
+  cast_scalar 2 false [50; 49; 52; 55; 52; 56; 51; 54; 52; 56] = None /\
+  cast_scalar 3 false [52; 50; 57; 52; 57; 54; 55; 50; 57; 54] = None /\
+  cast_scalar 7 false [32; 45; 53] = None /\
+  forallb (fun ty => negb (p_ok (parse_scalar ty false (repeat 57 40)))) [2; 3; 4; 5; 6; 7] = true /\
+  cast_scalar 2 false [49; 50; 120] = None /\ p_len (parse_scalar 2 false [49; 50; 120]) = 2%nat.
+Proof. vm_compute. repeat split. Qed.
+Example nv_numeral : numeral [48; 120; 49; 48] 16 /\ numeral [48; 49; 55] 15 /\ numeral [32; 45; 49; 50] (-12).
+Proof.
+  split; [|split].
+  - refine (num_hex 120 [49; 48] _ _ _); [now left | discriminate | repeat constructor].
+  - refine (num_oct 49 [55] _ _); [reflexivity | repeat constructor].
+  - refine (num_dec [32] [45] [49; 50] (-1) _ _ _ _ _);
+      [repeat constructor | right; right; now split | discriminate | repeat constructor | cbn; intros H; discriminate H].
+Qed.
+Example nv_elem_ok : elem_ok 2 (-2147483648) /\ elem_ok 7 18446744073709551615 /\ elem_ok 0 1 /\
+  cast_pair 2 7 false (print_pair 2 7 (-5) 18446744073709551615) = Some (-5, 18446744073709551615) /\
+  cast_list 3 false (print_list 3 [1; 4294967295; 0]) = (true, [1; 4294967295; 0]).
+Proof.
+  split; [left; split; [unfold int_ty; lia | vm_compute; split; discriminate]|].
+  split; [left; split; [unfold int_ty; lia | vm_compute; split; discriminate]|].
+  split; [right; auto|]. vm_compute. split; reflexivity.
+Qed.
+Example nv_enum_classes : length enum_classes = 9%nat /\
+  map (fun t => length (ec_entries (ec_of t))) enum_classes = [2; 3; 4; 6; 11; 7; 3; 4; 4]%nat.
+Proof. vm_compute. split; reflexivity. Qed.
 Example c16_smoke : run_case [0; 2; 0; 3; 32; 45; 53] = [1; -5; 3; 0; 1; -5].
 Proof. vm_compute. reflexivity. Qed.
-Print Assumptions c16_smoke.
